@@ -61,10 +61,12 @@ def guarded_run(mod, plan, wall=60):
 def _worker(args):
     pid, tier, batch_seed, idxs, wall = args[:5]
     isolate = len(args) > 5 and args[5]      # after a worker died: each run of the chunks that were in flight gets its own process
+    deadline = args[6] if len(args) > 6 else None     # the batch's wall-clock cap (CLOCK_MONOTONIC is shared by forked workers)
     import warnings; warnings.simplefilter('ignore')
     mod = load_prop(pid)
     outs = []
     for i in idxs:
+        if deadline is not None and REAL_MONO() > deadline: break      # the rest of the chunk is not run (the batch reports what ran)
         s = run_seed(batch_seed, i)
         try:
             plan = mod.gen_plan(s, tier)
@@ -223,12 +225,12 @@ def main(argv=None):
     per_run_wall = getattr(mod, 'RUN_WALL', 60)
     t0 = REAL_MONO()
     chunk = max(1, min(50, nruns // (a.workers * 4) or 1))
-    jobs = [(pid, tier, seed, list(range(s, min(s + chunk, nruns))), per_run_wall)
+    jobs = [(pid, tier, seed, list(range(s, min(s + chunk, nruns))), per_run_wall, False, t0 + cap)
             for s in range(0, nruns, chunk)]
     outs = []
     errors = []
     ctx = mp.get_context('fork')
-    faulthandler.dump_traceback_later(cap + 300, exit=True)
+    faulthandler.dump_traceback_later(cap + 8 * per_run_wall + 330, exit=True)
     exs = [cf.ProcessPoolExecutor(max_workers=a.workers, mp_context=ctx)]
     worker_pids = set()
     def _note_workers():
@@ -260,7 +262,7 @@ def main(argv=None):
             except Exception: pass
             _kill_workers(); worker_pids.clear()
             exs[0] = cf.ProcessPoolExecutor(max_workers=a.workers, mp_context=ctx)
-            for j in lost: pending.appendleft(tuple(j[:5]) + (True,))
+            for j in lost: pending.appendleft(tuple(j[:5]) + (True,) + tuple(j[6:7]))
         lost = []
         while pending or live:
             try:
